@@ -562,6 +562,36 @@ func c01OtherSlash(q *c01Qual, width int) bool {
 	return false
 }
 
+// Lower-case locus names that contain a word which, in another column of the
+// LOCUS line, would be a molecule type, a topology or a division. The name
+// column is columns 13-28; whatever it spells, the molecule type, topology and
+// division are the ones written in their own columns.
+var c01KeywordNames = []string{
+	"dnak_transcript", "ssu_rdna_tx", "mrna_7", "trna_leu", "rrna16s", "linearized_x", "circular9", "genomic_dna_1", "bct_syn",
+	"dna", "rna", "mrna", "trna", "rrna", "linear", "circular", "linear_dna", "circular_mrna", "other_rna_2", "unassigned_dna", "viral_crna",
+	"transcribed_rna", "genomic_rna_9", "pri_1", "rod2", "mam_x", "vrt", "inv_3", "pln", "vrl_phg", "una_est", "pat_sts_gss", "htg_htc", "env",
+	"syn_circular_trna", "x_linear", "x_circular", "est_linear_rrna",
+}
+
+// c01KeywordWords: the lower-cased molecule words, topologies and divisions.
+var c01KeywordWords = func() []string {
+	w := []string{"dna", "rna", "linear", "circular", "genomic", "other", "unassigned", "transcribed", "viral"}
+	for _, d := range c01Divisions {
+		w = append(w, strings.ToLower(d))
+	}
+	return w
+}()
+
+func c01NameHasKeyword(name string) bool {
+	l := strings.ToLower(name)
+	for _, w := range c01KeywordWords {
+		if strings.Contains(l, w) {
+			return true
+		}
+	}
+	return false
+}
+
 var c01DigitWord = map[int]string{1: "one", 2: "two", 3: "three", 4: "four", 5: "five", 6: "six"}
 
 // c01Axes lists the axes leaf first, containers last.
@@ -580,6 +610,12 @@ func c01Axes() []c01Axis {
 			func(r *c01Rec) bool { return len(r.Name) == d },
 			func(r *c01Rec) { r.Name = "locus1" }))
 	}
+	ax = append(ax, c01RecAxis("topology-word-as-locus-name",
+		func(r *c01Rec) bool { return r.Name == "linear" || r.Name == "circular" },
+		func(r *c01Rec) { r.Name = "locus1" }))
+	ax = append(ax, c01RecAxis("keyword-in-locus-name",
+		func(r *c01Rec) bool { return r.Name != "linear" && r.Name != "circular" && c01NameHasKeyword(r.Name) },
+		func(r *c01Rec) { r.Name = "locus1" }))
 	for _, m := range []string{"mRNA", "tRNA", "rRNA"} {
 		m := m
 		ax = append(ax, c01RecAxis(strings.ToLower(m)+"-molecule",
@@ -866,6 +902,21 @@ func c01Blame(f *c01File, fails func(g *c01File) bool) (string, c01File) {
 			} else {
 				names = append(names, name)
 			}
+		}
+	}
+	// A locus name that spells a topology word is one shape whichever topology
+	// the record states in its own column (the stated topology is merely what
+	// the name must differ from, or coincide with, for the clause to fail).
+	for _, n := range names {
+		if n == "topology-word-as-locus-name" {
+			var rest []string
+			for _, m := range names {
+				if m != "circular-topology" && m != "no-topology" {
+					rest = append(rest, m)
+				}
+			}
+			names = rest
+			break
 		}
 	}
 	if len(names) == 0 {
@@ -1756,7 +1807,8 @@ func TestVerifC01(t *testing.T) {
 
 	dom := "independent NCBI-layout writer (LOCUS columns 13-28/30-40/48-53/56-63/65-67/69-79, 12-column keyword field, feature key column 6, location/qualifier column 22, wrapping at 79 or 80 columns, ORIGIN 60/10); "
 	shapeDom := "exhaustive over shape: sequence length {7,12,345,1234,12345,100000} (1 to 6 digits) x 1 or 2 features x qualifiers per feature {0,1,2} x value shape {" + strings.Join(c01VNames, ",") +
-		"} x location on {1,2,3} lines x final newline {yes,no}, plus lengths {1,9,10,60,61,99,100,120,999,1000,9999,10000,99999} and locus names of 1..16 characters and the 4 molecule types x 2 topologies on a plain record; "
+		"} x location on {1,2,3} lines x final newline {yes,no}, plus lengths {1,9,10,60,61,99,100,120,999,1000,9999,10000,99999} and locus names of 1..16 characters and the 4 molecule types x 2 topologies on a plain record, plus " + strconv.Itoa(len(c01KeywordNames)) +
+		" lower-case locus names that contain a molecule-type, topology or division word (dnak_transcript, ssu_rdna_tx, mrna_7, trna_leu, rrna16s, linearized_x, circular9, genomic_dna_1, bct_syn, linear, circular, dna, mrna, est_linear_rrna, ...) x 4 molecule types x 2 topologies x all 18 divisions on a plain 345-letter record; "
 	randDom := fmt.Sprintf("plus %d seeded-random records: length 1..100000 (digit count uniform), locus name 1..16 lower-case characters, DNA/mRNA/tRNA/rRNA, linear/circular, 0..40 features with 0..5 qualifiers (values over printable ASCII without the double quote, single-spaced words, up to 230 characters, translations up to 260), locations a..b, complement, join, complement(join), partial, single base, join of up to 40 ranges on several lines, 0..5 references with optional TITLE/PUBMED/REMARK, COMMENT/DBLINK/PROJECT blocks, metadata texts to 400 characters; every 25th random record is read through Read from a temporary file; ", nRandRec)
 	runs := []*verifRun{
 		newVerifRun("C01", "io/genbank.Parse/panic-free", dom+shapeDom+randDom+"every case counts"),
@@ -1806,22 +1858,33 @@ func TestVerifC01(t *testing.T) {
 		n, nameLen int
 		mol, topo  string
 		feats      int
+		name, div  string // when set: this locus name / division instead of random ones
 	}
 	var plains []plain
 	for _, n := range append(append([]int{}, extraLens...), lenReps...) {
 		for feats := 0; feats <= 1; feats++ {
-			plains = append(plains, plain{n, 8, "DNA", "linear", feats})
+			plains = append(plains, plain{n, 8, "DNA", "linear", feats, "", ""})
 		}
 	}
 	for nl := 1; nl <= 16; nl++ {
 		for _, n := range []int{7, 12, 345, 1234} {
-			plains = append(plains, plain{n, nl, "DNA", "linear", 1})
+			plains = append(plains, plain{n, nl, "DNA", "linear", 1, "", ""})
 		}
 	}
 	for _, m := range c01Mols {
 		for _, tp := range []string{"linear", "circular"} {
 			for _, n := range []int{7, 345, 1234, 12345} {
-				plains = append(plains, plain{n, 8, m, tp, 1})
+				plains = append(plains, plain{n, 8, m, tp, 1, "", ""})
+			}
+		}
+	}
+	// lower-case locus names containing a molecule-type, topology or division word
+	for _, name := range c01KeywordNames {
+		for _, m := range c01Mols {
+			for _, tp := range []string{"linear", "circular"} {
+				for _, d := range c01Divisions {
+					plains = append(plains, plain{n: 345, nameLen: len(name), mol: m, topo: tp, feats: 1, name: name, div: d})
+				}
 			}
 		}
 	}
@@ -1830,6 +1893,11 @@ func TestVerifC01(t *testing.T) {
 		rng := c01Rng(2, i)
 		r := c01ShapeRec(rng, p.n, p.feats, 1, c01VPlain, 1)
 		r.Name, r.Mol, r.Topo = c01Name(rng, p.nameLen), p.mol, p.topo
+		if p.name != "" {
+			r.Name, r.Div = p.name, p.div
+			f := c01File{Recs: []c01Rec{r}, FinalNL: true}
+			return c01EvalRecord(fmt.Sprintf("plain len=%d name=%s %s %s %s features=%d", p.n, p.name, p.mol, p.topo, p.div, p.feats), &f, "")
+		}
 		f := c01File{Recs: []c01Rec{r}, FinalNL: true}
 		return c01EvalRecord(fmt.Sprintf("plain len=%d name-length=%d %s %s features=%d", p.n, p.nameLen, p.mol, p.topo, p.feats), &f, "")
 	})
